@@ -92,6 +92,43 @@ def _frame_given(t, _d=0):
     return t
 
 
+def _alternatives(t, limit=16):
+    """the values a term can take, one per combination of its conditionals (up to `limit`; beyond that the term itself)"""
+    from ..vg import Ite, App, Tup
+
+    def first_ite(x, seen):
+        if id(x) in seen:
+            return None
+        seen.add(id(x))
+        if isinstance(x, Ite):
+            return x
+        subs = x.args if isinstance(x, App) else (x.items if isinstance(x, Tup) else ())
+        for c in subs:
+            r = first_ite(c, seen)
+            if r is not None:
+                return r
+        return None
+
+    def subst(x, old, new):
+        if x is old:
+            return new
+        if isinstance(x, App):
+            return App(x.name, tuple(subst(c, old, new) for c in x.args))
+        if isinstance(x, Tup):
+            return Tup(tuple(subst(c, old, new) for c in x.items), x.kind)
+        return x
+    out, todo = [], [t]
+    while todo:
+        x = todo.pop()
+        it = first_ite(x, set())
+        if it is None or len(out) + len(todo) >= limit:
+            out.append(x)
+            continue
+        todo.append(subst(x, it, it.a))
+        todo.append(subst(x, it, it.b))
+    return out
+
+
 def r1(ctx):
     m = ctx.model
     classes = ds9.ds9_classes(m)
@@ -166,9 +203,13 @@ def r1(ctx):
             elif t['kind'] in ('skycoord', 'skycoords') and t['comp'] in ('lon', '*'):
                 # the numbers are read back in the frame named on the frame line (default attributes): the field's own
                 # coordinate must be transformed to that frame before it is printed
-                txt = show(_frame_given(t['expr']), 6000)
                 own = f'attr:transform_to(attr:frame(region.{t["field"]}))'
-                if own not in txt or 'frame_transform_graph.lookup_name(' not in txt:
+                # every way the coordinate can be printed (the alternatives of the conditionals left once "a frame is
+                # given" is resolved) must go through the transform: `if frame is not None and value.frame.name != frame`
+                # skips it for an FK5 J1975 coordinate under a j2000 line
+                alts = _alternatives(_frame_given(t['expr']))
+                txts = [show(a_, 6000) for a_ in alts]
+                if any(own not in txt or 'frame_transform_graph.lookup_name(' not in txt for txt in txts):
                     probs.append(f'{t["field"]} is printed in its own frame (with its own frame attributes), not in the frame '
                                  'written on the frame line: a line whose end is galactic and whose start is icrs, or an FK5 '
                                  'coordinate with equinox J1975, comes back with the raw numbers under another frame')
